@@ -240,7 +240,7 @@ void scen_c08(mt_case * c) {
 
 /* =============================== C09 felock =============================== */
 static struct {
-  int P, C, I; int items[5], quota[5], yp[5], yc[5], insp;
+  int P, C, I; int items[5], quota[5], yp[5], yc[5], insp, insp_mark, R, peeks[4], yr[4]; long peeked, chain;
   myth_felock_t fe; witness_t w; int model_status; long box; int consumed[5 * 32]; int migrated; long cwaits;
 } F;
 static void fe_check_locked(const char * who, int want) {
@@ -286,8 +286,34 @@ static void * fe_inspector(void * a) {
     fe_check_locked("inspector", -1);
     do_yields(1);
     wit_leave(&F.w, "inspector");
-    myth_felock_unlock(&F.fe);
+    /* release either with unlock or by re-publishing the status that is already there */
+    if (F.insp_mark && (i & 1) == 0) myth_felock_mark_and_signal(&F.fe, F.model_status); else myth_felock_unlock(&F.fe);
     do_yields(1); op_done();
+  }
+  return 0;
+}
+/* readFF: wait until full, look at the value, leave it full.  A reader does its generated number of
+   looks during the exchange and then keeps looking until it has seen the closing value that the main
+   thread writes (and leaves full) after every item was consumed; the closing value reaches all R
+   readers only through the readers' own mark_and_signal(1) calls, one waiter per call. */
+#define FE_CLOSING 100000
+static void * fe_reader(void * a) {
+  int me = (int)(intptr_t)a; int last[5] = { -1, -1, -1, -1, -1 };
+  for (int i = 0; ; i++) {
+    myth_felock_wait_and_lock(&F.fe, 1);
+    fe_check_locked("reader", 1);
+    long v = F.box;
+    if (v != FE_CLOSING) {
+      if (v < 0 || v >= 5 * 32) mt_fail("reader saw an empty / invalid box %ld with status full", v);
+      if ((int)(v % 32) < last[v / 32]) mt_fail("reader saw item %ld of producer %ld after item %d", v % 32, v / 32, last[v / 32]);
+      last[v / 32] = (int)(v % 32);
+    }
+    wit_leave(&F.w, "reader");
+    myth_felock_mark_and_signal(&F.fe, 1);
+    if (v == FE_CLOSING) { __sync_fetch_and_add(&F.chain, 1); op_done(); break; }
+    __sync_fetch_and_add(&F.peeked, 1);
+    if (i < F.peeks[me]) op_done();
+    do_yields(F.yr[me] + (i >= F.peeks[me]));
   }
   return 0;
 }
@@ -299,28 +325,44 @@ void scen_c09(mt_case * c) {
   for (int i = 0; i < F.P; i++) { F.items[i] = rd_range(r, 1, maxit); total += F.items[i]; F.yp[i] = (int)rd_below(r, 3); }
   int left = total;
   for (int j = 0; j < F.C; j++) { int q = (j == F.C - 1) ? left : (int)rd_below(r, (unsigned)left + 1); F.quota[j] = q; left -= q; F.yc[j] = (int)rd_below(r, 3); }
-  mt_desc("C09 felock mailbox P=%d C=%d inspector_ops=%d\n items:", F.P, F.C, F.insp);
+  F.insp_mark = (int)rd_below(r, 2);
+  F.R = rd_below(r, 2) ? rd_range(r, 1, 4) : 0;
+  for (int k = 0; k < F.R; k++) { F.peeks[k] = (int)rd_below(r, 4); F.yr[k] = (int)rd_below(r, 3); }
+  mt_desc("C09 felock mailbox P=%d C=%d inspector_ops=%d%s readers(readFF)=%d\n items:", F.P, F.C, F.insp, F.insp && F.insp_mark ? " (releasing with mark_and_signal(current status))" : "", F.R);
   for (int i = 0; i < F.P; i++) mt_desc(" %d(y%d)", F.items[i], F.yp[i]);
   mt_desc(" quotas:"); for (int j = 0; j < F.C; j++) mt_desc(" %d(y%d)", F.quota[j], F.yc[j]);
   mt_desc("\n");
   mt_hash(c->prog.p, c->prog.pos);
   mt_lib_start(c, &e, 0);
   myth_felock_init(&F.fe, 0); F.box = -1;
-  myth_thread_t th[12]; int n = 0;
-  int cf = (int)rd_below(r, 2);
+  myth_thread_t th[12], rth[4]; int n = 0;
+  int cf = (int)rd_below(r, 2), rf = (int)rd_below(r, 2);
+  if (rf) for (int k = 0; k < F.R; k++) myth_create_ex(&rth[k], 0, fe_reader, (void *)(intptr_t)k);
   if (cf) for (int j = 0; j < F.C; j++) myth_create_ex(&th[n++], 0, fe_consumer, (void *)(intptr_t)j);
   for (int i = 0; i < F.P; i++) myth_create_ex(&th[n++], 0, fe_producer, (void *)(intptr_t)i);
   if (!cf) for (int j = 0; j < F.C; j++) myth_create_ex(&th[n++], 0, fe_consumer, (void *)(intptr_t)j);
   if (F.insp) myth_create_ex(&th[n++], 0, fe_inspector, (void *)(intptr_t)F.insp);
+  if (!rf) for (int k = 0; k < F.R; k++) myth_create_ex(&rth[k], 0, fe_reader, (void *)(intptr_t)k);
   for (int i = 0; i < n; i++) { myth_join(th[i], 0); mv_progress(); }
+  if (F.R) {
+    /* closing write: every item is consumed, the variable is empty; fill it for good */
+    myth_felock_wait_and_lock(&F.fe, 0);
+    fe_check_locked("closing writer", 0);
+    F.box = FE_CLOSING; F.model_status = 1;
+    wit_leave(&F.w, "closing writer");
+    myth_felock_mark_and_signal(&F.fe, 1);
+    for (int k = 0; k < F.R; k++) { myth_join(rth[k], 0); mv_progress(); }
+    if (F.chain != F.R) mt_fail("%ld of %d readers saw the closing value", F.chain, F.R);
+  }
   mt_lib_finish();
   for (int i = 0; i < F.P; i++) for (int k = 0; k < 32; k++) {
     int want = k < F.items[i]; if (F.consumed[i * 32 + k] != want) mt_fail("item %d of producer %d consumed %d times", k, i, F.consumed[i * 32 + k]);
   }
-  if (myth_felock_status(&F.fe) != 0) mt_fail("felock status %d at the end", myth_felock_status(&F.fe));
+  if (myth_felock_status(&F.fe) != (F.R ? 1 : 0)) mt_fail("felock status %d at the end", myth_felock_status(&F.fe));
   long blocked = (long)HIT(MVP_BLOCK_CB_B);
   mt_stat("blocked", blocked); mt_stat("migrated", F.migrated);
   if (blocked) mt_label("blocked"); if (F.migrated) mt_label("resumed_on_other_worker"); if (F.insp) mt_label("plain_lock_mixed"); if (e.W == 1) mt_label("W1");
+  if (F.R >= 2) mt_label("readers_chain"); if (F.insp && F.insp_mark) mt_label("remark_same_status"); mt_stat("reader_looks", F.peeked);
   mt_nontrivial(blocked > 0 && (F.migrated > 0 || SWHIT(MVP_BLOCK_CB_A) + SWHIT(MVP_BLOCK_CB_B) > 0));
 }
 
